@@ -31,7 +31,9 @@ _h("c11_no_digit_decimal_any_type", ["C11", "C06"])
 _h("c11_no_digit_binary_any_type", ["C11", "C06"])
 for ln in (1, 2, 3, 4, 8, 9, 16, 32, 64):
     _h("c11_bin_len%d" % ln, ["C11", "C06"] if ln in (1, 8, 9, 32, 64) else ["C11"], tier=Q if ln <= 32 else T, timeout=1500, stubs=True)
-for ln in (0, 1, 2, 3, 4, 8, 16):
+# 16 hex digits (u64): CBMC runs to the 12 GB cap after ~22 min (thorough run, 16 cores busy) - outside the claim;
+# the 64-bit hex boundary is covered by the E1 literal family (boundary literals of every width) instead
+for ln in (0, 1, 2, 3, 4, 8):
     _h("c11_hex_anyint_len%d" % ln, ["C11", "C06"], tier=Q if ln <= 4 else T, timeout=1500)
 for n in (0, 1, 2, 3, 4, 8, 16, 32):
     _h("c11_bytes_value_n%d" % n, ["C11"], timeout=900)
